@@ -349,21 +349,13 @@ func (prop) Run(t *testing.T, tape *kernel.Tape, sc kernel.Scenario) *kernel.Res
 		return res
 	}
 	// alternatives in the router's order correspond to s.alts in order
-	var perAlt [][][]int
 	total := 1
 	for _, ra := range route.Authenticators {
 		ps := permutations(len(ra.Schemes))
 		if len(ps) == 0 {
 			ps = [][]int{{}}
 		}
-		perAlt = append(perAlt, ps)
 		total *= len(ps)
-	}
-	base := make([][]string, len(route.Authenticators))
-	for i, ra := range route.Authenticators {
-		b := append([]string(nil), ra.Schemes...)
-		sort.Strings(b)
-		base[i] = b
 	}
 	rounds := total
 	if rounds > 36 {
@@ -407,11 +399,17 @@ func (prop) Run(t *testing.T, tape *kernel.Tape, sc kernel.Scenario) *kernel.Res
 		}
 		var orderDesc []string
 		for i := range route.Authenticators {
-			ps := perAlt[i]
+			// (taken from the route as it is now: it may keep its alternatives in whatever order it likes)
+			b := append([]string(nil), route.Authenticators[i].Schemes...)
+			sort.Strings(b)
+			ps := permutations(len(b))
+			if len(ps) == 0 {
+				ps = [][]int{{}}
+			}
 			p := ps[idx%len(ps)]
 			idx /= len(ps)
 			for j, src := range p {
-				route.Authenticators[i].Schemes[j] = base[i][src]
+				route.Authenticators[i].Schemes[j] = b[src]
 			}
 			orderDesc = append(orderDesc, strings.Join(route.Authenticators[i].Schemes, ">"))
 		}
